@@ -633,6 +633,13 @@ package sse
 //@   modifies s.provider
 //@   ensures provider_chosen: s.provider != nil && (s.Provider != nil ==> s.provider == s.Provider)
 
+// the function Server.init runs once (sync.Once is the assumed part): it is what establishes init's contract
+//@ func Server.init$1
+//@   requires s != nil
+//@   modifies s.provider
+//@   ensures provider_chosen: s.provider != nil && (s.Provider != nil ==> s.provider == s.Provider)
+//@   ensures default_is_a_new_joe: s.Provider == nil ==> fresh(s.provider) && hasdyn(s.provider, "*Joe")
+
 //@ func getTopics
 //@   ensures default_when_empty: len(initial) == 0 ==> result == defaultTopicSlice
 //@   ensures given_otherwise: len(initial) != 0 ==> result == initial
